@@ -1,6 +1,6 @@
 """C08 - inspections run only after a layout's steps verify, and their failure is fatal."""
 from ..core import (callee_name, op_place, op_const, proj_path, as_cmp, leaf_s, OK, F0, F1, SOME, ELEM, SWAP, norm)
-from ..guards import root_ids, same_root, const_int
+from ..guards import body_of, root_ids, same_root, const_int
 from ..pipeline import Pipeline, Stages, fld, V_LINK, FILE_WRITES, SPAWN
 
 EXPLANATION = (
@@ -63,6 +63,35 @@ def run(ctx):
             okd = any(i in b.edge_dominated(e) for e in edges)
             ctx.inst("C08/D1", "%s before inspection run" % name, okd,
                      "inspection run at %s is %sedge-dominated by edge(s) %s" % (P.where(i), "" if okd else "NOT ", edges), t["at"])
+    # no failure of a step's artifact rules is swallowed: the verdict of the rule engine is the return value of every function
+    # instance that encloses the rule dispatch (the engine, and the helpers between it and in_toto_verify); once such a
+    # Result<_, Error> is known to be an Err inside the step-rule stage, no feasible path leads on to an inspection run
+    # (collecting the violations and reporting them later is the ordering the property forbids)
+    run_blocks = {i for (i, t) in insp}
+    is_err_ty = lambda ty: ty.startswith("std::result::Result<") and ty.rstrip(">").endswith("error::Error")
+    ret_of = {}
+    for blk in b.blocks:
+        if blk.get("inst"):
+            ret_of.setdefault(blk["inst"], blk.get("ret_local"))
+    for ri in step_rules:
+        encl = set()
+        for x in ri[1]:
+            parts = (b.blocks[x].get("inst") or "").split("/")
+            for n in range(2, len(parts) + 1):
+                encl.add("/".join(parts[:n]))
+        verdicts = {ret_of[i] for i in encl if ret_of.get(i) is not None and is_err_ty(b.local_ty(ret_of[i]))}
+        name = "rule failures of the steps are fatal before any inspection runs%s" % ("" if ri[0] == "/" else " " + ri[0].rsplit("@", 1)[0])
+        if not verdicts:
+            # the engine is written inline in in_toto_verify itself: its failures are in_toto_verify's own error returns
+            ctx.ok("C08/D1", name, "the rule dispatch is not enclosed by any helper returning Result<_, Error>; its failures are error returns of the verification routine itself", b.at(min(ri[1])))
+            continue
+        sw = b.swallowed_errors(ri[2] or set(ri[1]), run_blocks, lambda l: l in verdicts)
+        if sw is None:
+            ctx.bad("C08/D1", name, "path sensitivity unavailable (failing closed)")
+            continue
+        ctx.inst("C08/D1", name, not sw,
+                 "verdict values %s of the functions enclosing the rule dispatch; known to be Err inside the step-rule stage with an inspection run still reachable: %s" % (
+                     sorted(b.local_name(l) for l in verdicts), [(P.where(x), b.local_name(l)) for (x, l) in sw] or "none"), b.at(sw[0][0]) if sw else b.at(min(ri[1])))
     # ---- D2
     rules_edges = [e for ri in step_rules for e in S.exhaustion(ri[2])]
     behind = set()
@@ -145,6 +174,54 @@ def run(ctx):
             ctx.inst("C08/D4", "the test cannot be bypassed", not byp,
                      "with the `== 0` edge(s) %s and the `no return value` edge(s) %s removed the insertion is %s from the run" % (
                          [e for e, _ in tests_eq], [e for e, _ in none_edges], "STILL reachable" if byp else "unreachable"), it["at"])
+    # ---- D4, producer side: the consumer above lets a link WITHOUT a return value through (nothing ran: an empty command).
+    # That is only sound if a command that did run always leaves its exit status in the byproducts or fails the run:
+    # in every function that spawns the process, each path from the spawn to a non-error return passes the recording of
+    # `ExitStatus::code()`'s Some payload as the return value.
+    fx, cg = ctx.fx, ctx.cg
+    SETRV = "models::link::byproducts::ByProducts::set_return_value"
+    prod = set()
+    for (ri, rt) in insp:
+        ck = rt.get("resolved_key") or rt.get("callee_key")
+        if ck in fx.fns:
+            for k in set(cg.reachable([ck])) | {ck}:
+                if fx.fns[k]["kind"] in ("Fn", "AssocFn") and any(callee_name(t) in SPAWN for (_bb, t, _tg) in cg.sites.get(k, ()) ) :
+                    prod.add(fx.root_of(fx.fns[k])["key"] if hasattr(fx, "root_of") else k)
+    if not prod:
+        # the spawn may sit in a body cg.sites does not list (no local callee): look at every body reachable
+        for (ri, rt) in insp:
+            ck = rt.get("resolved_key") or rt.get("callee_key")
+            if ck in fx.fns:
+                for k in set(cg.reachable([ck])) | {ck}:
+                    bb_ = body_of(fx, k)
+                    if fx.fns[k]["kind"] in ("Fn", "AssocFn") and any(callee_name(t) in SPAWN for (_i, t) in bb_.calls()):
+                        prod.add(k)
+    if not prod:
+        ctx.bad("C08/D4", "exit status always recorded", "no function spawning a process is reachable from the inspection run (cannot show that a run leaves its exit status)")
+    for k in sorted(prod):
+        rb = ctx.region(None, policy="private", key=k, ps=True)
+        spawns = [(i, t) for (i, t) in rb.calls() if callee_name(t) in SPAWN]
+        def from_code(x):
+            lv = rb.trace(x, (), lambda t: callee_name(t) == "std::process::ExitStatus::code")
+            return bool(lv) and all(l.kind == "call" and callee_name(l.data[1]) == "std::process::ExitStatus::code" and l.path == (SOME, F0) for l in lv)
+        rec = set()
+        for (i, t) in rb.calls_named(SETRV):
+            if len(t["args"]) == 2 and from_code(t["args"][1]):
+                rec.add(i)
+        for i in sorted(rb.reach):
+            for st in rb.blocks[i]["stmts"]:
+                if st["k"] == "assign" and st["rv"]["k"] == "agg" and st["rv"].get("agg") == "adt" and st["rv"].get("adt", "").endswith("ByProducts") \
+                        and "return_value" in st["rv"].get("fields", []):
+                    o = st["rv"]["ops"][st["rv"]["fields"].index("return_value")]
+                    lv = rb.trace(o, (SOME, F0), lambda t: callee_name(t) == "std::process::ExitStatus::code")
+                    if lv and all(l.kind == "call" and callee_name(l.data[1]) == "std::process::ExitStatus::code" and l.path == (SOME, F0) for l in lv):
+                        rec.add(i)
+        into_rec = {(pb_, jj) for pb_ in rb.reach for jj, (tb, _l) in enumerate(rb.succ[pb_]) if tb in rec}
+        for (i, t) in spawns:
+            okp = bool(rec) and all(rb._is_err_return_path(i, tb, set(), jj, root=True, removed_edges=into_rec, stop_at_next=False)
+                                    for jj, (tb, _l) in enumerate(rb.succ[i]))
+            ctx.inst("C08/D4", "a command that ran leaves its exit status or fails the run", okp,
+                     "%d site(s) record ExitStatus::code()'s Some payload as the return value; every path from the spawn that avoids them is an error return: %s" % (len(rec), okp), t["at"])
     # ---- D6 what an inspection records
     for (ri, rt) in insp:
         if callee_name(rt) != "runlib::in_toto_run":
